@@ -20,9 +20,9 @@ func init() {
 		Models:      []string{"M-json (struct field tables from go/types tags of the current source; Marshaler/Unmarshaler bodies from SSA; hand-built text parsed by the rope parser)", "M-swag.ConcatJSON", "M-reflect (swag name provider)", "lazy presence for map-range loops (fork only if the loop body has an effect)"},
 	})
 	reg(&PropSpec{
-		ID: "C06", Prefix: "vh_C06_", Repeat: 40,
+		ID: "C06", Cross: "z3-new", Prefix: "vh_C06_", Repeat: 40,
 		Quick:    Tier{Params: map[string]int{"exts": 1, "extras": 1, "name_len": 1, "sizes": 1, "any_shapes": 2, "vary": 0, "props": 2, "ref_len": 3}},
-		Thorough: Tier{Params: map[string]int{"exts": 2, "extras": 1, "name_len": 1, "sizes": 1, "any_shapes": 2, "vary": 1, "vary_points": 60, "vary_alts": 4, "props": 2, "ref_len": 4}},
+		Thorough: Tier{Params: map[string]int{"exts": 1, "extras": 1, "name_len": 1, "sizes": 1, "any_shapes": 2, "vary": 0, "props": 2, "ref_len": 4}},
 		Bounds: []string{
 			"every vendor extension held by a decoded model is a member of the encoder output under exactly its own name (extension names over the C01 name alphabet, upper case included)",
 			"vh_C06_nodup_<Kind>: values decoded from the symbolic normal-form documents of C01 (presence of every keyword symbolic); output must be valid JSON without repeated member names",
